@@ -4,6 +4,7 @@ import (
 	"os"
 	"strconv"
 	"sync"
+	"sync/atomic"
 
 	"github.com/avfs/avfs"
 	"github.com/avfs/avfs/vfs/basepathfs"
@@ -602,6 +603,13 @@ func (f *Factory) replayEdge(idx int, e *Edge, names []string) (EdgeResult, erro
 	}
 
 	normCall(&e.Call)
+
+	if atomic.LoadInt32(&HangCount) >= 6 {
+		// several calls are already spinning for ever: the verdict is in, the remaining edges are not replayed
+		r.Status = "skip"
+
+		return r, nil
+	}
 
 	if !Applicable(f.Target, e.Call) {
 		r.Status = "skip"
